@@ -34,6 +34,8 @@ func checkC10(r *Run) propMeta {
 	checkHoistUnderConjunctionOnly(r)
 	checkBuilderCopiesCriteria(r)
 	checkEscapeOnce(r)
+	checkRewriteFlagState(r)
+	r.Floor("C10-R9-rewritten-implies-parameters", 2)
 	r.Floor("C10-R1-precedence", 6)
 	r.Floor("C10-R2-emitter-field", 60)
 	r.Floor("C10-R3-literal-class", 2)
@@ -152,10 +154,21 @@ func checkPrecedenceClosure(r *Run, g *Grammar, vm *VisitorModel) {
 			continue
 		}
 		for _, c := range order {
-			if strength[c.Obj()] >= strength[p.Obj()] {
+			sameLevelChain := strength[c.Obj()] == strength[p.Obj()] && c.Obj().Name() == "Comparison"
+			if strength[c.Obj()] >= strength[p.Obj()] && !sameLevelChain {
 				continue
 			}
 			construct := p.Obj().Name() + ">" + c.Obj().Name()
+			if sameLevelChain {
+				// a comparison among the operands of a comparison is read as one more link of the chain
+				wraps, decided := evalPrecedenceIdiom(emit, decls, cc, c)
+				if decided && wraps {
+					r.Pass("C10-R1-precedence", construct, cc.Pos(), "the emitter's %s case parenthesises a Comparison operand", p.Obj().Name())
+				} else {
+					r.Fail("C10-R1-precedence", construct, cc.Pos(), "a %s may hold a bare Comparison as operand; the emitter writes it without parentheses, so `(a = b) = c` becomes the comparison chain `a = b = c`", p.Obj().Name())
+				}
+				continue
+			}
 			wraps, decided := evalPrecedenceIdiom(emit, decls, cc, c)
 			if !decided {
 				wraps = wrapsLooser(emit, decls, cc, c)
@@ -167,6 +180,173 @@ func checkPrecedenceClosure(r *Run, g *Grammar, vm *VisitorModel) {
 			}
 		}
 	}
+	checkArithmeticPrecedence(r, emit, decls, clauses)
+}
+
+// checkArithmeticPrecedence (R1, arithmetic part): the binding strength of an ArithmeticExpression depends on the
+// operators it holds, so the pairs cannot be enumerated by type. Three structural conditions are necessary for any
+// grouping to survive: (A) the emitter's arithmetic cases hand their operands to the helper that can write "(", never
+// to WriteExpression directly; (B) the precedence function does not class arithmetic nodes with the atoms; (C) the
+// precedence demanded of a partial's right operand is computed from the partial's operator and is strictly tighter.
+func checkArithmeticPrecedence(r *Run, emit *packages.Package, decls map[string]*ast.FuncDecl, clauses map[*types.TypeName]*ast.CaseClause) {
+	info := emit.TypesInfo
+	cy := r.MustPkg("cypher/models/cypher")
+	lookup := func(name string) *types.TypeName {
+		tn, _ := cy.Types.Scope().Lookup(name).(*types.TypeName)
+		return tn
+	}
+	writesParen := func(fd *ast.FuncDecl) bool {
+		f := false
+		if fd == nil || fd.Body == nil {
+			return false
+		}
+		ast.Inspect(fd.Body, func(m ast.Node) bool {
+			if bl, ok := m.(*ast.BasicLit); ok && bl.Kind == token.STRING && bl.Value == `"("` {
+				f = true
+			}
+			return true
+		})
+		return f
+	}
+	declOf := func(fn *types.Func) *ast.FuncDecl {
+		for _, fd := range decls {
+			if info.Defs[fd.Name] == fn {
+				return fd
+			}
+		}
+		return nil
+	}
+	var precedenceFn *ast.FuncDecl
+	for _, spec := range []struct {
+		typ    string
+		fields []string
+	}{{"ArithmeticExpression", []string{"Left"}}, {"PartialArithmeticExpression", []string{"Right"}}, {"UnaryAddOrSubtractExpression", []string{"Right"}}} {
+		tn := lookup(spec.typ)
+		if tn == nil || clauses[tn] == nil {
+			r.Undecide("C10-R1: emitter case for %s not found", spec.typ)
+			return
+		}
+		cc := clauses[tn]
+		for _, field := range spec.fields {
+			construct := spec.typ + "." + field
+			var viaHelper, direct *ast.CallExpr
+			for _, st := range cc.Body {
+				ast.Inspect(st, func(n ast.Node) bool {
+					call, ok := n.(*ast.CallExpr)
+					if !ok {
+						return true
+					}
+					usesField := false
+					for _, a := range call.Args {
+						if sel, ok := ast.Unparen(a).(*ast.SelectorExpr); ok && sel.Sel.Name == field {
+							usesField = true
+						}
+					}
+					if !usesField {
+						return true
+					}
+					fn := calleeOf(info, call)
+					if fn == nil {
+						return true
+					}
+					if fn.Name() == "WriteExpression" {
+						direct = call
+					} else if fd := declOf(fn); writesParen(fd) {
+						viaHelper = call
+						// the helper's comparison names the precedence function
+						ast.Inspect(fd.Body, func(m ast.Node) bool {
+							if c2, ok := m.(*ast.CallExpr); ok {
+								if g := calleeOf(info, c2); g != nil && g.Pkg() == emit.Types && declOf(g) != nil {
+									if _, k := typeSwitchInts(emit, decls, declOf(g), tn.Type().(*types.Named)); k || hasTypeSwitch(declOf(g)) {
+										precedenceFn = declOf(g)
+									}
+								}
+							}
+							return true
+						})
+					}
+					return true
+				})
+			}
+			switch {
+			case direct != nil:
+				r.Fail("C10-R1-precedence", construct, direct.Pos(), "the emitter writes %s.%s with WriteExpression directly: an operand that binds looser than its position allows (2 * (3 + 4), -(a + b)) is written without parentheses and regroups when parsed", spec.typ, field)
+			case viaHelper == nil:
+				r.Fail("C10-R1-precedence", construct, cc.Pos(), "the emitter's %s case never writes %s", spec.typ, field)
+			default:
+				ok := true
+				why := ""
+				if spec.typ == "PartialArithmeticExpression" {
+					// (C) the demanded precedence mentions the Operator field and adds a positive constant
+					ok = false
+					why = "the precedence demanded of the right operand is not `<precedence of the partial's operator> + c` with c > 0: a right operand of the same level (a - (b - c)) joins the operators to its left"
+					for _, a := range viaHelper.Args {
+						if be, isBin := ast.Unparen(a).(*ast.BinaryExpr); isBin && be.Op == token.ADD {
+							if tv, has := info.Types[be.Y]; has && tv.Value != nil {
+								if c, exact := constantInt64(tv); exact && c > 0 {
+									mentionsOp := false
+									ast.Inspect(be.X, func(m ast.Node) bool {
+										if sel, isSel := m.(*ast.SelectorExpr); isSel && sel.Sel.Name == "Operator" {
+											mentionsOp = true
+										}
+										return true
+									})
+									if mentionsOp {
+										ok = true
+									}
+								}
+							}
+						}
+					}
+				}
+				if ok {
+					r.Pass("C10-R1-precedence", construct, viaHelper.Pos(), "written through the parenthesising helper")
+				} else {
+					r.Fail("C10-R1-precedence", construct, viaHelper.Pos(), "%s", why)
+				}
+			}
+		}
+	}
+	// (B)
+	if precedenceFn == nil {
+		r.Fail("C10-R1-precedence", "operand-precedence:arithmetic", token.NoPos, "no precedence function is consulted for arithmetic operands")
+		return
+	}
+	for _, name := range []string{"ArithmeticExpression", "UnaryAddOrSubtractExpression"} {
+		tn := lookup(name)
+		hasCase := false
+		ast.Inspect(precedenceFn.Body, func(n ast.Node) bool {
+			if cc, ok := n.(*ast.CaseClause); ok {
+				for _, te := range cc.List {
+					if tv, has := info.Types[te]; has {
+						if nt := namedOf(tv.Type); nt != nil && nt.Obj() == tn {
+							hasCase = true
+						}
+					}
+				}
+			}
+			return true
+		})
+		if hasCase {
+			r.Pass("C10-R1-precedence", "operand-precedence:"+name, precedenceFn.Pos(), "%s has a precedence of its own", name)
+		} else {
+			r.Fail("C10-R1-precedence", "operand-precedence:"+name, precedenceFn.Pos(), "%s has no case in %s and is classed with the atoms: it is never parenthesised", name, precedenceFn.Name.Name)
+		}
+	}
+}
+
+func hasTypeSwitch(fd *ast.FuncDecl) bool {
+	if fd == nil || fd.Body == nil {
+		return false
+	}
+	found := false
+	ast.Inspect(fd.Body, func(n ast.Node) bool {
+		if _, ok := n.(*ast.TypeSwitchStmt); ok {
+			found = true
+		}
+		return !found
+	})
+	return found
 }
 
 // wrapsLooser: code reachable (≤ 2 same-package calls) from the case clause contains a write of "(" whose
@@ -350,6 +530,12 @@ func checkLiteralClass(r *Run) {
 // for the child type and combined with which branch writes "(".
 func evalPrecedenceIdiom(p *packages.Package, decls map[string]*ast.FuncDecl, cc *ast.CaseClause, child *types.Named) (wraps bool, decided bool) {
 	info := p.TypesInfo
+	var enclosing *ast.FuncDecl
+	for _, d := range decls {
+		if d.Body != nil && d.Body.Pos() <= cc.Pos() && cc.End() <= d.Body.End() {
+			enclosing = d
+		}
+	}
 	declOf := func(fn *types.Func) *ast.FuncDecl {
 		for _, fd := range decls {
 			if info.Defs[fd.Name] == fn {
@@ -384,16 +570,16 @@ func evalPrecedenceIdiom(p *packages.Package, decls map[string]*ast.FuncDecl, cc
 			if fd == nil || fd.Body == nil || fd.Type.Params == nil {
 				return true
 			}
-			// constant int argument and its parameter object
-			var kVal int64
+			// the precedence argument (an int expression whose possible values can be enumerated) and its parameter object
+			var kSet map[int64]bool
 			var kParam types.Object
 			idx := 0
 			for _, pl := range fd.Type.Params.List {
 				for _, nm := range pl.Names {
 					if idx < len(call.Args) {
-						if tv, ok := info.Types[call.Args[idx]]; ok && tv.Value != nil {
-							if v, exact := constantInt64(tv); exact {
-								kVal = v
+						if b, isBasic := info.TypeOf(call.Args[idx]).Underlying().(*types.Basic); isBasic && b.Info()&types.IsInteger != 0 {
+							if vs, k := possibleInts(p, decls, enclosing, call.Args[idx], map[*ast.FuncDecl]bool{}, 0); k && len(vs) > 0 {
+								kSet = vs
 								kParam = info.Defs[nm]
 							}
 						}
@@ -435,25 +621,44 @@ func evalPrecedenceIdiom(p *packages.Package, decls map[string]*ast.FuncDecl, cc
 				if gfn == nil || gfn.Pkg() != p.Types {
 					continue
 				}
-				gv, ok := typeSwitchConstant(p, declOf(gfn), child)
+				gSet, ok := typeSwitchInts(p, decls, declOf(gfn), child)
 				if !ok {
 					continue
 				}
-				l, rr := gv, kVal
-				if !paramOnRight {
-					l, rr = kVal, gv
+				// the comparison must come out the same for every possible pair; a mixed outcome means the operand is
+				// not always wrapped
+				var t, tSet, mixed bool
+				for gv := range gSet {
+					for kVal := range kSet {
+						l, rr := gv, kVal
+						if !paramOnRight {
+							l, rr = kVal, gv
+						}
+						var one bool
+						switch be.Op {
+						case token.LSS:
+							one = l < rr
+						case token.LEQ:
+							one = l <= rr
+						case token.GTR:
+							one = l > rr
+						case token.GEQ:
+							one = l >= rr
+						default:
+							mixed = true
+						}
+						if tSet && one != t {
+							mixed = true
+						}
+						t, tSet = one, true
+					}
 				}
-				var t bool
-				switch be.Op {
-				case token.LSS:
-					t = l < rr
-				case token.LEQ:
-					t = l <= rr
-				case token.GTR:
-					t = l > rr
-				case token.GEQ:
-					t = l >= rr
-				default:
+				if !tSet {
+					continue
+				}
+				if mixed {
+					found, result = true, false
+					allAgree = false
 					continue
 				}
 				bodyWrites := writesParen(ifs.Body)
@@ -516,15 +721,145 @@ func constantInt64(tv types.TypeAndValue) (int64, bool) {
 	return v, true
 }
 
-// typeSwitchConstant: fd is `switch x.(type) { case *T: return K ... default: return D }`; returns the constant for child.
-func typeSwitchConstant(p *packages.Package, fd *ast.FuncDecl, child *types.Named) (int64, bool) {
+// possibleInts: the set of integer values an expression of fd can take, flow-insensitively: constants, x±c, local
+// variables (union over their assignments in fd), and calls to same-package functions (union over their return
+// expressions, a recursive call contributing nothing).
+func possibleInts(p *packages.Package, decls map[string]*ast.FuncDecl, fd *ast.FuncDecl, e ast.Expr, busy map[*ast.FuncDecl]bool, depth int) (map[int64]bool, bool) {
+	info := p.TypesInfo
+	e = ast.Unparen(e)
+	if tv, has := info.Types[e]; has && tv.Value != nil {
+		if v, exact := constantInt64(tv); exact {
+			return map[int64]bool{v: true}, true
+		}
+	}
+	if depth > 4 {
+		return nil, false
+	}
+	switch x := e.(type) {
+	case *ast.BinaryExpr:
+		if x.Op == token.ADD || x.Op == token.SUB {
+			if tv, has := info.Types[x.Y]; has && tv.Value != nil {
+				if c, exact := constantInt64(tv); exact {
+					base, ok := possibleInts(p, decls, fd, x.X, busy, depth+1)
+					if !ok {
+						return nil, false
+					}
+					out := map[int64]bool{}
+					for v := range base {
+						if x.Op == token.ADD {
+							out[v+c] = true
+						} else {
+							out[v-c] = true
+						}
+					}
+					return out, true
+				}
+			}
+		}
+	case *ast.Ident:
+		obj, isVar := info.Uses[x].(*types.Var)
+		if !isVar || fd == nil {
+			return nil, false
+		}
+		out := map[int64]bool{}
+		found, ok := false, true
+		ast.Inspect(fd.Body, func(n ast.Node) bool {
+			switch as := n.(type) {
+			case *ast.AssignStmt:
+				if len(as.Lhs) != len(as.Rhs) {
+					return true
+				}
+				for i, l := range as.Lhs {
+					if id, isID := l.(*ast.Ident); isID && info.ObjectOf(id) == obj {
+						if as.Tok != token.ASSIGN && as.Tok != token.DEFINE {
+							ok = false
+							continue
+						}
+						vs, k := possibleInts(p, decls, fd, as.Rhs[i], busy, depth+1)
+						if !k {
+							ok = false
+							continue
+						}
+						found = true
+						for v := range vs {
+							out[v] = true
+						}
+					}
+				}
+			case *ast.ValueSpec:
+				for i, nm := range as.Names {
+					if info.Defs[nm] == obj && i < len(as.Values) {
+						vs, k := possibleInts(p, decls, fd, as.Values[i], busy, depth+1)
+						if !k {
+							ok = false
+							continue
+						}
+						found = true
+						for v := range vs {
+							out[v] = true
+						}
+					}
+				}
+			}
+			return true
+		})
+		return out, found && ok
+	case *ast.CallExpr:
+		fn := calleeOf(info, x)
+		if fn == nil || fn.Pkg() != p.Types {
+			return nil, false
+		}
+		var gd *ast.FuncDecl
+		for _, d := range decls {
+			if info.Defs[d.Name] == fn {
+				gd = d
+			}
+		}
+		if gd == nil || gd.Body == nil {
+			return nil, false
+		}
+		if busy[gd] {
+			return map[int64]bool{}, true // recursion contributes nothing new
+		}
+		busy[gd] = true
+		defer delete(busy, gd)
+		return returnInts(p, decls, gd, gd.Body, busy, depth+1)
+	}
+	return nil, false
+}
+
+// returnInts: union of the values of every return statement below n (function literals excluded).
+func returnInts(p *packages.Package, decls map[string]*ast.FuncDecl, fd *ast.FuncDecl, n ast.Node, busy map[*ast.FuncDecl]bool, depth int) (map[int64]bool, bool) {
+	out := map[int64]bool{}
+	ok, any := true, false
+	ast.Inspect(n, func(m ast.Node) bool {
+		if _, isLit := m.(*ast.FuncLit); isLit {
+			return false
+		}
+		if rs, isRet := m.(*ast.ReturnStmt); isRet && len(rs.Results) == 1 {
+			any = true
+			vs, k := possibleInts(p, decls, fd, rs.Results[0], busy, depth)
+			if !k {
+				ok = false
+				return true
+			}
+			for v := range vs {
+				out[v] = true
+			}
+		}
+		return true
+	})
+	return out, ok && any
+}
+
+// typeSwitchInts: fd is `switch x.(type) { case *T: … return … default: return D }`; the set of values it can return
+// for an operand of type child.
+func typeSwitchInts(p *packages.Package, decls map[string]*ast.FuncDecl, fd *ast.FuncDecl, child *types.Named) (map[int64]bool, bool) {
 	if fd == nil || fd.Body == nil {
-		return 0, false
+		return nil, false
 	}
 	info := p.TypesInfo
-	var val int64
-	ok := false
-	var def *int64
+	var val, def map[int64]bool
 	ast.Inspect(fd.Body, func(n ast.Node) bool {
 		ts, isTS := n.(*ast.TypeSwitchStmt)
 		if !isTS {
@@ -532,39 +867,29 @@ func typeSwitchConstant(p *packages.Package, fd *ast.FuncDecl, child *types.Name
 		}
 		for _, c := range ts.Body.List {
 			cc := c.(*ast.CaseClause)
-			ret := func() (int64, bool) {
-				for _, st := range cc.Body {
-					if rs, isRet := st.(*ast.ReturnStmt); isRet && len(rs.Results) == 1 {
-						if tv, has := info.Types[rs.Results[0]]; has {
-							return constantInt64(tv)
-						}
-					}
-				}
-				return 0, false
-			}
+			busy := map[*ast.FuncDecl]bool{fd: true}
+			vs, k := returnInts(p, decls, fd, cc, busy, 0)
 			if cc.List == nil {
-				if v, k := ret(); k {
-					def = &v
+				if k {
+					def = vs
 				}
 				continue
 			}
 			for _, te := range cc.List {
 				if tv, has := info.Types[te]; has {
-					if nt := namedOf(tv.Type); nt != nil && nt.Obj() == child.Obj() {
-						if v, k := ret(); k {
-							val, ok = v, true
-						}
+					if nt := namedOf(tv.Type); nt != nil && nt.Obj() == child.Obj() && k {
+						val = vs
 					}
 				}
 			}
 		}
 		return false
 	})
-	if ok {
+	if val != nil && len(val) > 0 {
 		return val, true
 	}
-	if def != nil {
-		return *def, true
+	if def != nil && len(def) > 0 && val == nil {
+		return def, true
 	}
-	return 0, false
+	return nil, false
 }
